@@ -110,6 +110,16 @@ CLAIMED = {
             'Trusted: mc/numeric.py; sympy for irrational goals (undecided unless exact zero or |difference| > 1e-30). '
             'Known open finding F-C05-3 (float comparison of irrational constants) is listed by exact goals.',
             'DESIGN.md §3 C05'),
+    'C12': ('model_checking',
+            'explicit-state exploration of loader histories with fault injection on the real theory loader, history-free reference',
+            'All histories of <=3 (thorough 4) loader events over a scratch library of five theories (loads with every kind of limit, '
+            'file edits with later and earlier modification times, loads interrupted by an injected parse fault at the first/last item, '
+            'import cycle on/off) are executed on the real loader; after every load that returns, the complete theory state is compared '
+            'with a history-free load of the same files, and loads that must fail must raise. A second family runs [import M; load T] '
+            'and [load T; load T] histories over the real library in fresh interpreter processes.',
+            'Trusted: the history-free reference is the same loader with emptied caches, cross-checked against truly fresh processes. '
+            'Edits that keep the mtime are out of scope. Real-library family: 10 (thorough 40) process histories.',
+            'DESIGN.md §3 C12'),
 }
 
 PENDING_REASON = 'check not built yet in this round (planned, see DESIGN.md §3/§7); not claimed until its machinery exists'
